@@ -1121,6 +1121,14 @@ func prefixOperatorShape(c *Ctx, m *prattModel) {
 			got = append(got, rc.Value)
 		}
 		okShape := len(got) == 1 && got[0] == want
+		if !okShape && len(got) == 1 && got[0] == strings.Replace(want, "OpToken: *p.previous", "OpToken: *p.current", 1) {
+			// the operator token copied from the cursor before it is consumed: the same token
+			allInstrs(f, func(in ssa.Instruction) {
+				if u, ok := in.(*ssa.UnOp); ok && u.Op == token.MUL && p.Render(u) == "*p.current" && beforeAnyCursorMove(f, u) {
+					okShape, okRead = true, true
+				}
+			})
+		}
 		allInstrs(f, func(in ssa.Instruction) {
 			u, ok := in.(*ssa.UnOp)
 			if !ok || u.Op != token.MUL {
